@@ -182,12 +182,15 @@ NOT_YET = "check not built yet (see DESIGN.md section 7 for the build order); no
 ROUND3 = {
     "C01": "Round 3: configurations in which a pair trades on a finer grid than its symbols' own precision (K24, K25).",
     "C02": "Round 3: get_balance(symbol) for every symbol (and unknown ones) and get_loans(is_open=True) compared with the "
-           "plain listings on every transition; pair grid finer than the symbol grid.",
+           "plain listings on every transition; pair grid finer than the symbol grid. Round 4: the account is read by a job at "
+           "each bar's own time (before the bar is processed) and before every action, in both drivers.",
     "C03": "Round 3: the hash seeds of the child processes are CHOSEN so that every two-element set of order operations, "
            "symbols and pairs is iterated in both orders, and the digest also covers ~2300 exchange histories with "
-           "competing orders (both sides, all types) under fees, finite liquidity and lending.",
+           "competing orders (both sides, all types) under fees, finite liquidity and lending. Round 4: ladder scenarios (up to "
+           "250 open orders on one pair next to another pair with the same timestamps) across max_concurrent.",
     "C04": "Round 3: bars of other pairs sharing the order's base symbol (ETH/BTC) or quote symbol (BTC/USD), at any "
-           "price, leave the order exactly as it is; library exceptions inside the driver are violations.",
+           "price, leave the order exactly as it is; library exceptions inside the driver are violations. Round 4: the pair's "
+           "precision reconfigured after an order of the pair was processed.",
     "C05": "Round 3: every get_orders(pair, is_open) combination and the fields of get_open_orders() entries compared with "
            "get_orders(); all 3-cycles of a tiny alphabet x every phase of the open-list re-index (polls before the run); "
            "precision configured through default_pair_info only.",
@@ -203,6 +206,35 @@ ROUND3 = {
     "C10": "Round 3: margin boundary probes (in every state of designated configurations the largest admissible loan plus "
            "one precision unit is requested, on a 10M account too), default next to per-symbol lending conditions (K30), "
            "auto-borrow orders without a lending strategy.",
+    "C12": "Rounds 3-4: raising handlers that are functools.partial / callable instances at every stage, non-adjacent duplicate "
+           "subscriptions (a, b, a), bound methods of several instances of one class, 0-2 catch-all handlers per stage, a job "
+           "that pushes an event to a derived source (found a genuine defect, repaired), every started handler must finish.",
+    "C13": "Rounds 3-4: 5-8 jobs beyond the last event in every insertion order, a job must have finished before a later "
+           "event starts (end records), jobs scheduling EARLIER jobs from every position with a run cap, equal-time clauses "
+           "made strict (false alarm removed).",
+    "C14": "Rounds 3-4: catch-all handlers in all three stages, raising idle handlers, raising handlers AND jobs that are "
+           "partials / callable instances on both dispatchers, application-installed log record factory, orphan handlers after "
+           "run() returned, nothing started after the run has to end, injection window covering every run.",
+    "C15": "Rounds 3-4: the real utc_now() body runs (the clock is substituted underneath it, also under non-UTC local time "
+           "zones), >= 3 jobs in non-heap-sorted insertion orders incl. far-future ones, jobs at one instant, catch-all handlers "
+           "must not receive dropped out-of-order events.",
+    "C16": "Rounds 3-4: every ordered pair (and class triple) of requests on ONE client, nonces across client objects and "
+           "across restarts, every sleep path virtual (watchdog), connections dropped after the request was read (retries must "
+           "not replay nonce / timestamp / signature), caller-supplied sessions.",
+    "C17": "Rounds 3-4: exact expected parameter dicts (every option the caller set, nothing extra), decimal extra keyword "
+           "arguments (found a genuine defect, repaired), sends under reduced-precision decimal contexts and > 28 digits, "
+           "account-level read API against a model exchange (all statuses, trades of partially filled / cancelled orders), "
+           "independent status tables.",
+    "C18": "Rounds 3-4: Binance through Exchange / WebsocketManager with spot, cross-margin, isolated-margin and two or three "
+           "user-data streams; keep-alive per KEY to the issuer's own endpoint; reconnect requests must lead to a new subscribed "
+           "connection; after listenKeyExpired the SAME connection survives and carries the new SUBSCRIBE; every connection the "
+           "client gives up has a cause from the environment.",
+    "C19": "Rounds 3-4: non-monotone prices and amounts with distinct subset sums, non-UTC tzinfo / all period strings / Yahoo "
+           "timedelta, the Bitstamp aggregator and Exchange.subscribe_to_bar_events end to end, zero volume spellings, bars not "
+           "emitted before the end of their window, durations 7 / 13 with unaligned starts.",
+    "C20": "Rounds 3-4: callers cancelled while waiting (every subset, several instants), the real REST clients with a stub "
+           "session, arrival instants off the dyadic grid and 3000-20000-request periodic patterns against the exact reference, "
+           "read-only `tokens` observations between requests.",
     "C11": "Round 3: auto-repay on all four order types; positive oracle (an auto-repay order that traded and closed without "
            "repaying anything while a loan is repayable at that very moment, decided on a rebuilt copy); read-only API calls "
            "before every action and same-timestamp bars (values cached per instant); interest periods that are not whole "
